@@ -4,6 +4,7 @@
 import ElfVerif.Lemmas.Stream
 import ElfVerif.Lemmas.StreamTotal
 import ElfVerif.Lemmas.ReaderInv
+import ElfVerif.Lemmas.LazyIO
 namespace Elf.C08
 
 /-- Every buffer allocation recorded in the trace is at most the stream length. -/
@@ -200,5 +201,43 @@ theorem section_data_reads_only_its_range (s : ElfStream) (sh : SectionHeader) :
     (sh.sh_offset ≤ (s.sectionData sh).2.reader.dev.pos ∧
       (s.sectionData sh).2.reader.dev.pos ≤ sh.sh_offset + sh.sh_size) :=
   sectionData_extent s sh
+
+/-! ## Lazy reads at trace level
+
+  `Ext A d d'`: every I/O event recorded between device states `d` and `d'` — each seek, each
+  read-buffer allocation, each read call, each completed load — belongs to a range `[s, e)` with
+  `A s e`: the seek goes to `s`, the allocation is `e - s` bytes, a read call asks for at most
+  `e - s` bytes (`EvIn`). -/
+
+/-- **Each query reads no more than the byte ranges it designates** (`Query.designates`): the range of
+    the header passed in; the section-name string table the file header names; the first section of
+    the wanted type and the string table its `sh_link` names; the SHT_DYNAMIC section, or PT_DYNAMIC
+    when there are no section headers; the version sections and their linked string tables — in any
+    state, under any schedule, whatever the outcome. -/
+theorem query_io_is_designated (q : Query) (s : ElfStream) :
+    Ext (q.designates s) s.reader.dev (q.after s).reader.dev := Query.io_designated q s
+
+/-- **Opening reads no more than the file header and the two header tables**: after measuring the
+    stream length, a successful `open_stream` touches only the 16 identification bytes, the rest of the
+    file header, whole section-header-sized entries at `e_shoff` and whole program-header-sized
+    entries at `e_phoff`. -/
+theorem open_is_lazy (sp : Spec) (dev : Device) (s : ElfStream) (d : Device)
+    (h : openStream sp dev = (.ok s, d)) :
+    ∃ d1, dev.seekEnd.2 = d1 ∧ Ext (OpenRange s.ehdr) d1 s.reader.dev := openStream_lazy sp dev s d h
+
+/-- reading `Ext`: a completed load recorded during a query is the load of a designated range -/
+theorem loads_are_designated (q : Query) (s : ElfStream) (a len : Nat) (pre post : List IoEvent)
+    (h : (q.after s).reader.dev.trace = s.reader.dev.trace ++ pre ++ [.load a len] ++ post) :
+    ∃ e, q.designates s a e ∧ len = e - a := by
+  obtain ⟨ext, he, hp⟩ := Query.io_designated q s
+  have : ext = pre ++ [.load a len] ++ post := by
+    rw [he] at h
+    have h' : s.reader.dev.trace ++ ext = s.reader.dev.trace ++ (pre ++ [.load a len] ++ post) := by
+      simpa [List.append_assoc] using h
+    exact List.append_cancel_left h'
+  obtain ⟨s', e, hA, hin⟩ := hp (.load a len) (by rw [this]; simp)
+  obtain ⟨h1, h2⟩ := hin
+  subst h1
+  exact ⟨e, hA, h2⟩
 
 end Elf.C08
